@@ -8,15 +8,37 @@ import (
 	"golang.org/x/tools/go/ssa"
 )
 
+func setRes(st *State, res ssa.Value, v Value) {
+	if res != nil {
+		st.top().env[res] = v
+	}
+}
+
 func (ex *Exec) enter(st *State, fv FuncV, args []Value, result ssa.Value, at ssa.Instruction) bool {
 	fn := fv.fn
+	if len(fn.Blocks) == 0 && fn.Pkg != nil {
+		fn.Pkg.Build()
+	}
 	if len(fn.Blocks) == 0 {
-		fail("call of function without body: %s", fn.String())
+		if ex.lenient {
+			if result != nil {
+				setRes(st, result, ex.opaqueResult(fn, fn.Signature.Results()))
+			}
+			return true
+		}
+		fail("call of function without body or model: %s", fn.String())
 	}
 	if len(st.frames) > 200 {
 		fail("call depth exceeded")
 	}
+	ex.Funcs[fn.String()] = true
 	nf := &Frame{fn: fn, block: fn.Blocks[0], env: map[ssa.Value]Value{}, call: result, visits: map[int]int{}}
+	if len(fv.bound) > 0 {
+		args = append(append([]Value(nil), fv.bound...), args...)
+	}
+	if len(args) != len(fn.Params) {
+		fail("arity mismatch calling %s: %d args, %d params", fn.String(), len(args), len(fn.Params))
+	}
 	for i, p := range fn.Params {
 		nf.env[p] = args[i]
 	}
@@ -27,13 +49,37 @@ func (ex *Exec) enter(st *State, fv FuncV, args []Value, result ssa.Value, at ss
 	return true
 }
 
+func (ex *Exec) opaqueResult(fn *ssa.Function, res *types.Tuple) Value {
+	mkv := func(t types.Type) Value {
+		switch t.Underlying().(type) {
+		case *types.Pointer, *types.Interface, *types.Signature, *types.Map, *types.Chan, *types.Slice:
+			if _, isI := t.Underlying().(*types.Interface); isI {
+				return IfaceV{}
+			}
+			return zeroValue(t)
+		}
+		return zeroValue(t)
+	}
+	switch res.Len() {
+	case 0:
+		return TupleV{}
+	case 1:
+		return mkv(res.At(0).Type())
+	}
+	tv := make(TupleV, res.Len())
+	for i := range tv {
+		tv[i] = mkv(res.At(i).Type())
+	}
+	return tv
+}
+
 func (ex *Exec) call(st *State, fr *Frame, cc *ssa.CallCommon, ins *ssa.Call) bool {
 	args := make([]Value, 0, len(cc.Args)+1)
 	if cc.IsInvoke() {
 		recv := ex.eval(st, cc.Value).(IfaceV)
 		if recv.t == nil {
 			ex.check(st, tTrue, "panic", "nil interface method call", ins)
-			ex.endPath("panic")
+			ex.endPath(st, "panic")
 			return false
 		}
 		if types.Identical(recv.t, ex.opaqueErrT) && cc.Method.Name() == "Error" {
@@ -48,7 +94,7 @@ func (ex *Exec) call(st *State, fr *Frame, cc *ssa.CallCommon, ins *ssa.Call) bo
 		for _, a := range cc.Args {
 			args = append(args, ex.eval(st, a))
 		}
-		return ex.dispatch(st, fr, FuncV{fn: m}, args, ins)
+		return ex.dispatch(st, fr, FuncV{fn: m}, args, ins, ins)
 	}
 	for _, a := range cc.Args {
 		args = append(args, ex.eval(st, a))
@@ -58,80 +104,188 @@ func (ex *Exec) call(st *State, fr *Frame, cc *ssa.CallCommon, ins *ssa.Call) bo
 	}
 	fv, ok := ex.eval(st, cc.Value).(FuncV)
 	if !ok || fv.fn == nil {
-		fail("call of non-function value")
+		ex.check(st, tTrue, "panic", "call of nil function", ins)
+		ex.endPath(st, "panic")
+		return false
 	}
-	return ex.dispatch(st, fr, fv, args, ins)
+	return ex.dispatch(st, fr, fv, args, ins, ins)
 }
 
-func (ex *Exec) dispatch(st *State, fr *Frame, fv FuncV, args []Value, ins *ssa.Call) bool {
+type intrinsic func(ex *Exec, st *State, fv FuncV, args []Value, res ssa.Value, at ssa.Instruction) bool
+
+var intrinsics = map[string]intrinsic{}
+
+func (ex *Exec) dispatch(st *State, fr *Frame, fv FuncV, args []Value, res ssa.Value, at ssa.Instruction) bool {
+	if len(fv.bound) > 0 {
+		args = append(append([]Value(nil), fv.bound...), args...)
+		fv = FuncV{fn: fv.fn, free: fv.free}
+	}
 	name := fv.fn.String()
 	short := fv.fn.Name()
+	if strings.HasPrefix(short, "verif") && fv.fn.Pkg != nil && len(fv.fn.Blocks) == 0 {
+		return ex.verifIntrinsic(st, fr, short, fv, args, res, at)
+	}
+	if rep, ok := ex.ld.repl[name]; ok && !strings.HasPrefix(fr.fn.Name(), "verifOrig") {
+		ex.Notes["replaced "+name+" by "+rep.String()]++
+		return ex.enter(st, FuncV{fn: rep}, args, res, at)
+	}
+	if in, ok := intrinsics[name]; ok {
+		return in(ex, st, fv, args, res, at)
+	}
+	if fv.fn.Name() == "init" && fv.fn.Pkg != nil && !ex.ld.isRepoPkg(fv.fn.Pkg) && fv.fn.Signature.Recv() == nil {
+		setRes(st, res, TupleV{})
+		return true
+	}
+	return ex.enter(st, fv, args, res, at)
+}
+
+func (ex *Exec) verifIntrinsic(st *State, fr *Frame, short string, fv FuncV, args []Value, res ssa.Value, at ssa.Instruction) bool {
 	switch {
 	case strings.HasPrefix(short, "verifNondet"):
-		fr.env[ins] = ex.nondet(st, short, fv.fn, args)
+		setRes(st, res, ex.nondet(st, short, fv.fn, args))
 		return true
 	case short == "verifAssume":
 		c := args[0].(*Term)
 		if !ex.feasible(c) {
 			ex.Infeasible++
-			ex.endPath("assume-false")
+			ex.endPath(st, "assume-false")
 			return false
 		}
-		ex.sol.Assert(ex.sol.Name(c))
-		fr.env[ins] = TupleV{}
+		ex.sol.Assert(c)
+		setRes(st, res, TupleV{})
 		return true
 	case short == "verifAssert":
 		c := args[0].(*Term)
 		msg := ""
 		if len(args) > 1 {
-			if s, ok := args[1].(StrV); ok && len(s.segs) == 1 {
-				msg = s.segs[0].lit
+			if s, ok := args[1].(StrV); ok {
+				msg, _ = s.concrete()
 			}
 		}
-		if !ex.check(st, tNot(c), "assert", msg, ins) {
-			ex.endPath("assert")
+		if !ex.check(st, tNot(c), "assert", msg, at) {
+			ex.endPath(st, "assert")
 			return false
 		}
-		fr.env[ins] = TupleV{}
+		setRes(st, res, TupleV{})
 		return true
 	case short == "verifAt":
 		sl := args[0].(SliceV)
 		_, sg, _ := intInfo(fv.fn.Signature.Params().At(1).Type())
 		i := bvConv(args[1].(*Term), sg, 64)
-		fr.env[ins] = st.container(sl).(BytesV).a.sel(bvBin("bvadd", sl.off, i))
+		if sl.obj == 0 {
+			setRes(st, res, bvConst(0, 8))
+			return true
+		}
+		setRes(st, res, st.container(sl).(BytesV).a.sel(bvBin("bvadd", sl.off, i)))
 		return true
-	case short == "verifAll":
+	case short == "verifAll" || short == "verifAny":
 		sl := args[0].(SliceV)
-		r := tTrue
+		r := boolConst(short == "verifAll")
 		if sl.obj != 0 {
 			for _, e := range st.container(sl).(ArrV).e[sl.off.v : sl.off.v+sl.len.v] {
-				r = tAnd(r, e.(*Term))
+				if short == "verifAll" {
+					r = tAnd(r, e.(*Term))
+				} else {
+					r = tOr(r, e.(*Term))
+				}
 			}
 		}
-		fr.env[ins] = r
+		setRes(st, res, r)
 		return true
 	case short == "verifReach":
-		if s, ok := args[0].(StrV); ok && len(s.segs) == 1 {
-			st.reached[s.segs[0].lit] = true
+		if s, ok := args[0].(StrV); ok {
+			l, _ := s.concrete()
+			ex.Reached[l]++
 		}
-		fr.env[ins] = TupleV{}
+		setRes(st, res, TupleV{})
+		return true
+	case short == "verifNote":
+		if s, ok := args[0].(StrV); ok {
+			l, _ := s.concrete()
+			ex.Notes[l]++
+		}
+		setRes(st, res, TupleV{})
+		return true
+	case short == "verifKnown":
+		s, _ := args[0].(StrV).concrete()
+		setRes(st, res, boolConst(ex.known[s]))
+		return true
+	case short == "verifParam":
+		s, _ := args[0].(StrV).concrete()
+		v, ok := ex.params[s]
+		if !ok {
+			d := args[1].(*Term)
+			if !d.isConst {
+				fail("verifParam default must be constant")
+			}
+			v = int64(d.v)
+			ex.params[s] = v
+		}
+		setRes(st, res, u64(v))
+		return true
+	case short == "verifSplit":
+		n := args[0].(*Term)
+		if !n.isConst {
+			fail("verifSplit needs a constant")
+		}
+		if ex.splitIdx < 0 { // not split: behave like verifCase
+			return ex.caseFork(st, int(n.v), res, "verifSplit")
+		}
+		if ex.splitIdx >= int(n.v) {
+			ex.endPath(st, "assume-false")
+			return false
+		}
+		st.nondet = append(st.nondet, nondetRec{fn: "verifSplit", kind: "const", w: 64, lenT: u64(int64(ex.splitIdx))})
+		setRes(st, res, u64(int64(ex.splitIdx)))
+		return true
+	case short == "verifCase":
+		n := args[0].(*Term)
+		if !n.isConst {
+			fail("verifCase needs a constant")
+		}
+		return ex.caseFork(st, int(n.v), res, "verifCase")
+	case short == "verifBytesEq":
+		setRes(st, res, ex.bytesEqForall(st, args[0], args[1]))
+		return true
+	case short == "verifProgress":
+		ex.installProgress(st, args)
+		setRes(st, res, TupleV{})
+		return true
+	case short == "verifAllocBound":
+		ex.allocBound = args[0].(*Term)
+		setRes(st, res, TupleV{})
+		return true
+	case short == "verifStrEq":
+		setRes(st, res, ex.strEq(args[0].(StrV), args[1].(StrV)))
 		return true
 	}
-	switch name {
-	case "encoding/binary.Read":
-		return ex.binaryRead(st, fr, args, ins)
-	case "fmt.Errorf", "errors.New":
-		ex.nSym++
-		fr.env[ins] = IfaceV{t: ex.opaqueErrT, v: OpaqueV{kind: "err", id: fmt.Sprintf("%s#%d", ex.where(st, ins), 0)}}
-		return true
-	case "(net.IP).String", "fmt.Sprintf", "(net.HardwareAddr).String":
-		fr.env[ins] = StrV{segs: []Seg{{op: name, args: args}}}
-		return true
-	case "fmt.Printf", "fmt.Println", "(*log.Logger).Println", "(*log.Logger).Printf":
-		fr.env[ins] = zeroValue(ins.Type())
-		return true
+	if f, ok := verifExtra[short]; ok {
+		return f(ex, st, fv, args, res, at)
 	}
-	return ex.enter(st, fv, args, ins, ins)
+	fail("unknown harness intrinsic %s", short)
+	return false
+}
+
+var verifExtra = map[string]intrinsic{}
+
+// caseFork forks n ways, binding res to 0..n-1 (recorded as a nondet for replay).
+func (ex *Exec) caseFork(st *State, n int, res ssa.Value, what string) bool {
+	for i := 0; i < n; i++ {
+		s := st
+		if i < n-1 {
+			s = st.clone()
+			ex.Forks++
+		}
+		ex.sol.Push()
+		s.nondet = append(s.nondet, nondetRec{fn: what, kind: "const", w: 64, lenT: u64(int64(i))})
+		setRes(s, res, u64(int64(i)))
+		ex.run(s)
+		ex.sol.Pop()
+		if ex.stopped {
+			break
+		}
+	}
+	return false
 }
 
 func (ex *Exec) nondet(st *State, short string, fn *ssa.Function, args []Value) Value {
@@ -142,28 +296,56 @@ func (ex *Exec) nondet(st *State, short string, fn *ssa.Function, args []Value) 
 	t := res.At(0).Type()
 	if w, _, ok := intInfo(t); ok {
 		s := ex.fresh("n", w)
-		st.nondet = append(st.nondet, nondetRec{name: s.s, sort: sortOf(w), kind: "bv"})
+		st.nondet = append(st.nondet, nondetRec{fn: short, name: s.s, kind: "bv", w: w})
 		return s
 	}
 	if isBool(t) {
 		s := ex.fresh("b", 0)
-		st.nondet = append(st.nondet, nondetRec{name: s.s, sort: "Bool", kind: "bool"})
+		st.nondet = append(st.nondet, nondetRec{fn: short, name: s.s, kind: "bool"})
 		return s
 	}
 	if sl, ok := t.Underlying().(*types.Slice); ok {
 		if w, _, ok := intInfo(sl.Elem()); ok {
-			ex.nSym++
-			name := fmt.Sprintf("A!%d", ex.nSym)
+			name := ex.sol.FreshName("A")
 			ex.sol.Declare(name, arrSort(w))
 			_, sg, _ := intInfo(fn.Signature.Params().At(0).Type())
 			n := bvConv(args[0].(*Term), sg, 64)
-			id := st.alloc(types.NewArray(sl.Elem(), 0), BytesV{a: &ArrExpr{kind: 0, name: name, w: w}, n: n, w: w})
-			st.nondet = append(st.nondet, nondetRec{name: name, kind: "bytes", lenT: n})
-			return SliceV{obj: id, off: u64(0), len: n, cap: n}
+			c := n
+			if len(args) > 1 {
+				c = bvConv(args[1].(*Term), sg, 64)
+			}
+			id := st.alloc(types.NewArray(sl.Elem(), 0), BytesV{a: &ArrExpr{kind: 0, name: name, w: w}, n: c, w: w})
+			st.nondet = append(st.nondet, nondetRec{fn: short, name: name, kind: "bytes", w: w, lenT: c})
+			return SliceV{obj: id, off: u64(0), len: n, cap: c}
 		}
 	}
 	fail("nondet of type %s", t)
 	return nil
+}
+
+// bytesEqForall: len(a)==len(b) and, for a fresh index j, j<len => a[j]==b[j].
+// Valid only in assertion position (the solver picks the worst j).
+func (ex *Exec) bytesEqForall(st *State, a, b Value) *Term {
+	sa := ex.snapOf(st, a)
+	sb := ex.snapOf(st, b)
+	j := ex.fresh("j", 64)
+	in := bvCmp("bvult", j, sa.len)
+	return tAnd(tEq(sa.len, sb.len), tImplies(in, tEq(sa.a.sel(bvBin("bvadd", sa.off, j)), sb.a.sel(bvBin("bvadd", sb.off, j)))))
+}
+
+func (ex *Exec) snapOf(st *State, v Value) SliceSnap {
+	switch x := v.(type) {
+	case SliceV:
+		if x.obj == 0 {
+			return SliceSnap{a: &ArrExpr{kind: 1, w: 8}, off: u64(0), len: u64(0)}
+		}
+		c := st.container(x).(BytesV)
+		return SliceSnap{a: c.a, off: x.off, len: x.len}
+	case SliceSnap:
+		return x
+	}
+	fail("snapshot of %T", v)
+	return SliceSnap{}
 }
 
 func (ex *Exec) builtin(st *State, fr *Frame, b *ssa.Builtin, cc *ssa.CallCommon, args []Value, ins *ssa.Call) bool {
@@ -173,62 +355,310 @@ func (ex *Exec) builtin(st *State, fr *Frame, b *ssa.Builtin, cc *ssa.CallCommon
 		case SliceV:
 			fr.env[ins] = x.len
 		case StrV:
-			n := 0
-			for _, s := range x.segs {
-				if s.op != "" {
-					fail("len of opaque string")
-				}
-				n += len(s.lit)
+			fr.env[ins] = ex.strLen(st, x)
+		case MapRef:
+			if x.obj == 0 {
+				fr.env[ins] = u64(0)
+			} else {
+				ex.emitMap(st, x.obj, "len")
+				fr.env[ins] = u64(int64(len(st.heap[x.obj].val.(*MapV).entries)))
 			}
-			fr.env[ins] = u64(int64(n))
+		case ChanRef:
+			if x.obj == 0 {
+				fr.env[ins] = u64(0)
+			} else {
+				fr.env[ins] = u64(int64(len(st.heap[x.obj].val.(*ChanV).q)))
+			}
+		case RopeRef:
+			fr.env[ins] = ex.strLen(st, ex.ropeOf(st, x))
 		default:
 			fail("len of %T", x)
 		}
+	case "cap":
+		switch x := args[0].(type) {
+		case SliceV:
+			fr.env[ins] = x.cap
+		case ChanRef:
+			fr.env[ins] = u64(int64(st.heap[x.obj].val.(*ChanV).cap))
+		default:
+			fail("cap of %T", x)
+		}
 	case "copy":
 		ex.builtinCopy(st, fr, args, ins)
-	case "cap":
-		fr.env[ins] = args[0].(SliceV).cap
 	case "append":
-		s := args[0].(SliceV)
-		t, ok := args[1].(SliceV)
-		if !ok {
-			fail("append of %T", args[1])
+		return ex.builtinAppend(st, fr, cc, args, ins)
+	case "delete":
+		return ex.mapDelete(st, fr, args, ins)
+	case "close":
+		if !ex.chanClose(st, args[0], ins) {
+			return false
 		}
-		elem := cc.Args[0].Type().Underlying().(*types.Slice).Elem()
-		if w, _, isInt := intInfo(elem); isInt {
-			// always a fresh array in the spike (aliasing of byte appends not modelled)
-			var a *ArrExpr = &ArrExpr{kind: 1, w: w}
-			if s.obj != 0 {
-				sa := st.container(s).(BytesV)
-				a = &ArrExpr{kind: 3, w: w, base: a, src: sa.a, dOff: u64(0), sOff: s.off, cnt: s.len}
-			}
-			if t.obj != 0 {
-				ta := st.container(t).(BytesV)
-				a = &ArrExpr{kind: 3, w: w, base: a, src: ta.a, dOff: s.len, sOff: t.off, cnt: t.len}
-			}
-			n := bvBin("bvadd", s.len, t.len)
-			id := st.alloc(types.NewArray(elem, 0), BytesV{a: a, n: n, w: w})
-			fr.env[ins] = SliceV{obj: id, off: u64(0), len: n, cap: n}
-			return true
+		fr.env[ins] = TupleV{}
+	case "print", "println":
+		fr.env[ins] = TupleV{}
+	case "min", "max":
+		a, bb := args[0].(*Term), args[1].(*Term)
+		_, sg, _ := intInfo(cc.Args[0].Type())
+		op := "bvult"
+		if sg {
+			op = "bvslt"
 		}
-		if !s.len.isConst || !t.len.isConst || !s.off.isConst || !t.off.isConst {
-			fail("append of composite slices with symbolic length")
+		lt := bvCmp(op, a, bb)
+		if b.Name() == "min" {
+			fr.env[ins] = tIte(lt, a, bb)
+		} else {
+			fr.env[ins] = tIte(lt, bb, a)
 		}
-		var elems []Value
-		if s.obj != 0 {
-			sa := st.container(s).(ArrV)
-			elems = append(elems, sa.e[s.off.v:s.off.v+s.len.v]...)
-		}
-		if t.obj != 0 {
-			ta := st.container(t).(ArrV)
-			elems = append(elems, ta.e[t.off.v:t.off.v+t.len.v]...)
-		}
-		elems = append([]Value(nil), elems...)
-		id := st.alloc(types.NewArray(elem, int64(len(elems))), ArrV{e: elems})
-		n := u64(int64(len(elems)))
-		fr.env[ins] = SliceV{obj: id, off: u64(0), len: n, cap: n}
 	default:
 		fail("builtin %s", b.Name())
 	}
 	return true
+}
+
+// ---- append / copy ----------------------------------------------------------
+
+var sizeClasses = []int{0, 8, 16, 24, 32, 48, 64, 80, 96, 112, 128, 144, 160, 176, 192, 208, 224, 240, 256, 288, 320, 352, 384, 416, 448, 480, 512, 576, 640, 704, 768, 896, 1024, 1152, 1280, 1408, 1536, 1792, 2048, 2304, 2688, 3072, 3200, 3456, 4096, 4864, 5376, 6144, 6528, 6784, 6912, 8192, 9472, 9728, 10240, 10880, 12288, 13568, 14336, 16384, 18432, 19072, 20480, 21760, 24576, 27264, 28672, 32768}
+
+func roundupsize(n int) int {
+	for _, c := range sizeClasses {
+		if c >= n {
+			return c
+		}
+	}
+	return (n + 8191) &^ 8191
+}
+
+// growCap mirrors runtime.growslice's capacity choice (go1.20+).
+func growCap(oldCap, newLen, elemSize int) int {
+	newcap := oldCap
+	doublecap := newcap + newcap
+	if newLen > doublecap {
+		newcap = newLen
+	} else {
+		const threshold = 256
+		if oldCap < threshold {
+			newcap = doublecap
+		} else {
+			for 0 < newcap && newcap < newLen {
+				newcap += (newcap + 3*threshold) / 4
+			}
+			if newcap <= 0 {
+				newcap = newLen
+			}
+		}
+	}
+	if elemSize == 0 {
+		return newcap
+	}
+	mem := roundupsize(newcap * elemSize)
+	return mem / elemSize
+}
+
+func (ex *Exec) sizeofType(t types.Type) int {
+	sz := types.SizesFor("gc", "amd64")
+	return int(sz.Sizeof(t))
+}
+
+func (ex *Exec) builtinAppend(st *State, fr *Frame, cc *ssa.CallCommon, args []Value, ins *ssa.Call) bool {
+	s := args[0].(SliceV)
+	elem := cc.Args[0].Type().Underlying().(*types.Slice).Elem()
+	w, _, isInt := intInfo(elem)
+	// source
+	var t SliceV
+	var tsnap *SliceSnap
+	switch x := args[1].(type) {
+	case SliceV:
+		t = x
+	case StrV: // append([]byte, string...)
+		b := ex.stringToBytes(st, x).(SliceV)
+		t = b
+	case RopeRef:
+		b := ex.stringToBytes(st, ex.ropeOf(st, x)).(SliceV)
+		t = b
+	default:
+		fail("append of %T", args[1])
+	}
+	_ = tsnap
+	if isInt {
+		n := bvBin("bvadd", s.len, t.len)
+		fits := bvCmp("bvule", n, s.cap)
+		inPlace := func(st *State) {
+			if t.obj != 0 && s.obj != 0 {
+				src := st.container(t).(BytesV)
+				dobj := st.heap[s.obj]
+				cont := getPath(dobj.val, s.path).(BytesV)
+				na := cont.a.copyFrom(bvBin("bvadd", s.off, s.len), src.a, t.off, t.len)
+				ex.emitObj(st, s.obj, true)
+				st.heap[s.obj] = &Obj{typ: dobj.typ, val: setPath(dobj.val, s.path, BytesV{a: na, n: cont.n, w: cont.w})}
+			}
+			st.top().env[ins] = SliceV{obj: s.obj, path: s.path, off: s.off, len: n, cap: s.cap}
+		}
+		grow := func(st *State) {
+			var a *ArrExpr = &ArrExpr{kind: 1, w: w}
+			if s.obj != 0 {
+				sa := st.container(s).(BytesV)
+				a = a.copyFrom(u64(0), sa.a, s.off, s.len)
+			}
+			if t.obj != 0 {
+				ta := st.container(t).(BytesV)
+				a = a.copyFrom(s.len, ta.a, t.off, t.len)
+			}
+			var c *Term
+			if n.isConst && s.cap.isConst {
+				c = u64(int64(growCap(int(s.cap.v), int(n.v), w/8)))
+			} else {
+				c = ex.fresh("cap", 64)
+				ex.sol.Assert(tAnd(bvCmp("bvuge", c, n), bvCmp("bvult", c, u64(1<<41))))
+			}
+			id := st.alloc(types.NewArray(elem, 0), BytesV{a: a, n: c, w: w})
+			st.top().env[ins] = SliceV{obj: id, off: u64(0), len: n, cap: c}
+		}
+		if s.obj == 0 && t.len.isConst && t.len.v == 0 {
+			fr.env[ins] = s
+			return true
+		}
+		if fits.isConst {
+			if fits.v == 1 {
+				inPlace(st)
+			} else {
+				grow(st)
+			}
+			return true
+		}
+		return ex.forkAlts(st, []alt{{fits, inPlace}, {tNot(fits), grow}})
+	}
+	if !s.len.isConst || !t.len.isConst || !s.off.isConst || !t.off.isConst || !s.cap.isConst {
+		fail("append of composite slices with symbolic length")
+	}
+	var add []Value
+	if t.obj != 0 {
+		ta := st.container(t).(ArrV)
+		add = ta.e[t.off.v : t.off.v+t.len.v]
+	}
+	newLen := int(s.len.v) + len(add)
+	if len(add) == 0 {
+		fr.env[ins] = s
+		return true
+	}
+	if s.obj != 0 && uint64(newLen) <= s.cap.v {
+		dobj := st.heap[s.obj]
+		cont := getPath(dobj.val, s.path).(ArrV)
+		ne := append([]Value(nil), cont.e...)
+		copy(ne[s.off.v+s.len.v:], add)
+		ex.emitObj(st, s.obj, true)
+		st.heap[s.obj] = &Obj{typ: dobj.typ, val: setPath(dobj.val, s.path, ArrV{e: ne})}
+		fr.env[ins] = SliceV{obj: s.obj, path: s.path, off: s.off, len: u64(int64(newLen)), cap: s.cap}
+		return true
+	}
+	nc := growCap(int(s.cap.v), newLen, ex.sizeofType(elem))
+	elems := make([]Value, nc)
+	k := 0
+	if s.obj != 0 {
+		sa := st.container(s).(ArrV)
+		k = copy(elems, sa.e[s.off.v:s.off.v+s.len.v])
+	}
+	k += copy(elems[k:], add)
+	for ; k < nc; k++ {
+		elems[k] = zeroValue(elem)
+	}
+	id := st.alloc(types.NewArray(elem, int64(nc)), ArrV{e: elems})
+	fr.env[ins] = SliceV{obj: id, off: u64(0), len: u64(int64(newLen)), cap: u64(int64(nc))}
+	return true
+}
+
+func (ex *Exec) builtinCopy(st *State, fr *Frame, args []Value, ins *ssa.Call) {
+	d := args[0].(SliceV)
+	var s SliceV
+	switch x := args[1].(type) {
+	case SliceV:
+		s = x
+	case StrV:
+		s = ex.stringToBytes(st, x).(SliceV)
+	default:
+		fail("copy from %T", x)
+	}
+	n := tIte(bvCmp("bvult", d.len, s.len), d.len, s.len)
+	if d.obj != 0 && s.obj != 0 {
+		dobj := st.heap[d.obj]
+		switch cont := getPath(dobj.val, d.path).(type) {
+		case BytesV:
+			src := st.container(s).(BytesV)
+			na := cont.a.copyFrom(d.off, src.a, s.off, n)
+			ex.emitObj(st, d.obj, true)
+			st.heap[d.obj] = &Obj{typ: dobj.typ, val: setPath(dobj.val, d.path, BytesV{a: na, n: cont.n, w: cont.w})}
+		case ArrV:
+			if !n.isConst || !d.off.isConst || !s.off.isConst {
+				fail("copy of composite slices with symbolic bounds")
+			}
+			src := st.container(s).(ArrV)
+			ne := append([]Value(nil), cont.e...)
+			copy(ne[d.off.v:d.off.v+n.v], src.e[s.off.v:s.off.v+n.v])
+			st.heap[d.obj] = &Obj{typ: dobj.typ, val: setPath(dobj.val, d.path, ArrV{e: ne})}
+		default:
+			fail("copy into %T", cont)
+		}
+	}
+	fr.env[ins] = n
+}
+
+// ---- forking intrinsics -------------------------------------------------------
+
+type alt struct {
+	cond  *Term
+	apply func(st *State)
+}
+
+// forkAlts explores every feasible alternative of an operation with several outcomes.
+// It always returns false: the continuation of each alternative is run recursively.
+func (ex *Exec) forkAlts(st *State, alts []alt) bool {
+	var feas []alt
+	if ex.noFork > 0 {
+		// inside a synchronous call only a single feasible alternative is acceptable
+		for _, a := range alts {
+			if ex.feasible(a.cond) {
+				feas = append(feas, a)
+			}
+		}
+		if len(feas) != 1 {
+			fail("fork inside a synchronous call")
+		}
+		feas[0].apply(st)
+		return true
+	}
+	for _, a := range alts {
+		if ex.feasible(a.cond) {
+			feas = append(feas, a)
+		}
+	}
+	if len(feas) == 0 {
+		ex.Infeasible++
+		ex.endPath(st, "infeasible")
+		return false
+	}
+	for i, a := range feas {
+		s := st
+		if i < len(feas)-1 {
+			s = st.clone()
+		}
+		ex.sol.Push()
+		ex.sol.Assert(a.cond)
+		a.apply(s)
+		ex.run(s)
+		ex.sol.Pop()
+		if i < len(feas)-1 {
+			ex.Forks++
+		}
+		if ex.stopped {
+			break
+		}
+	}
+	return false
+}
+
+func (ex *Exec) opaqueErr(id string) Value {
+	return IfaceV{t: ex.opaqueErrT, v: OpaqueV{kind: "err", id: id}}
+}
+
+func init() {
+	_ = fmt.Sprint
 }
